@@ -413,7 +413,10 @@ FreeLeaves == {i \in 0 .. (MaxLeaves - 1) :
 Least(s) == CHOOSE i \in s : \A j \in s : i <= j
 
 CookiesOf(r) == {e.ck : e \in Range(Visible(r.ents))}
-LstAfter(nd) == IF lst.on THEN [lst EXCEPT !.thr = @ \cap CookiesOf(nd[lst.d])] ELSE lst
+\* (an entry that is gone cannot be reported again, cookies are not re-issued:
+\* the process only needs to remember the reported entries that still exist)
+LstAfter(nd) == IF lst.on THEN [lst EXCEPT !.thr = @ \cap CookiesOf(nd[lst.d]), !.rep = @ \cap CookiesOf(nd[lst.d])]
+                ELSE lst
 
 H(op, d, n, d2, n2, a, b, c, new, ch) ==
   [op |-> op, d |-> d, n |-> n, d2 |-> d2, n2 |-> n2, a |-> a, b |-> b, c |-> c, new |-> new, ch |-> ch]
